@@ -224,8 +224,7 @@ def gen_amdf(tier, rng):
         xs = rand_xs(rng) if k else rand_xs(rng, int(abs(lag)) + size + 3)
         yield {"lag": float(lag).hex() if isinstance(lag, float) else lag, "size": size, "zero": zero, "xs": xs,
                "tags": ["amdf", "lag=%s" % lag, "size=%d" % size, "zero" if zero and zero[0] else "zero0"]}
-  if LAG0_WITNESS:  # the recorded witness itself
-    yield {"lag": 0, "size": 2, "zero": [1, 3], "xs": [[1, 1], [2, 3], [-5, 2], [4, 1]], "tags": ["amdf", "lag0-witness"]}
+  # (the recorded witness itself is corpus/C20/amdf_lag0_zero.json, which runs first)
 
 
 def _lag(c):
